@@ -68,6 +68,7 @@ func evInc() ev                                    { return ev{} }
 func evDec() ev                                    { return ev{} }
 func evOpt(cond bool, e ev) ev                        { return ev{} }
 func atEntry[T any](x T) T                         { return x }
+func iter() int                                    { return 0 }
 
 // ---- precedence levels (C03): the ECMAScript classes, written with this package's constants ----
 
@@ -368,7 +369,7 @@ func slotPrecedence(e Expression) int     { return 0 }
 //@   assumes [wf] forall(0, len(p.Statements), func(k int) bool { return !isNil(p.Statements[k]) })
 //@   loop 1 invariant [frame] cwInv(cw) && J(cw) && NoFusion(cw) && cw.IndentLevel == atEntry(cw.IndentLevel)
 //@   loop 1 before [syntax] traceSeq()
-//@   loop 1 each [syntax] traceSeq(evNode(p.Statements[i]))
+//@   loop 1 each [syntax] traceSeq(evNode(p.Statements[iter()]))
 //@   ensures [syntax] traceSeq()
 
 //@ func (ls *LetStatement) WriteTo(cw)
@@ -395,7 +396,7 @@ func slotPrecedence(e Expression) int     { return 0 }
 //@   assumes [wf] fd.Name != nil && fd.Body != nil && forall(0, len(fd.Parameters), func(k int) bool { return fd.Parameters[k] != nil })
 //@   loop 1 invariant [frame] cwInv(cw) && J(cw) && NoFusion(cw) && cw.IndentLevel == atEntry(cw.IndentLevel)
 //@   loop 1 before [syntax] traceSeq(evLC(fd.Token.LeadingComments), evMap(fd.Token.Start), evStr("function "), evChild(fd.Name), evRune('('))
-//@   loop 1 each [syntax] traceSeq(evOpt(i > 0, evRune(',')), evChild(fd.Parameters[i]))
+//@   loop 1 each [syntax] traceSeq(evOpt(iter() > 0, evRune(',')), evChild(fd.Parameters[iter()]))
 //@   ensures [syntax] traceSeq(evRune(')'), evChild(fd.Body))
 
 //@ func (bs *BlockStatement) WriteTo(cw)
@@ -404,7 +405,7 @@ func slotPrecedence(e Expression) int     { return 0 }
 //@   assumes [wf] forall(0, len(bs.Statements), func(k int) bool { return !isNil(bs.Statements[k]) })
 //@   loop 1 invariant [frame] cwInv(cw) && J(cw) && NoFusion(cw) && cw.IndentLevel == ite(cw.PrettyPrint, atEntry(cw.IndentLevel), old(cw.IndentLevel)) && implies(cw.PrettyPrint, cw.IndentLevel == old(cw.IndentLevel)+1)
 //@   loop 1 before [syntax] traceSeq(evLC(bs.Token.LeadingComments), evMap(bs.Token.Start), evRune('{'))
-//@   loop 1 each [syntax] traceSeq(evNode(bs.Statements[i]))
+//@   loop 1 each [syntax] traceSeq(evNode(bs.Statements[iter()]))
 //@   ensures [syntax] traceSeq(evLC(bs.RBrace.LeadingComments), evRune('}'))
 
 //@ func (ifs *IfStatement) WriteTo(cw)
@@ -500,7 +501,7 @@ func slotPrecedence(e Expression) int     { return 0 }
 //@   assumes [wf] !isNil(ce.Function) && forall(0, len(ce.Arguments), func(k int) bool { return !isNil(ce.Arguments[k]) })
 //@   loop 1 invariant [frame] cwInv(cw) && J(cw) && NoFusion(cw) && implies(cw.PrettyPrint, cw.IndentLevel == old(cw.IndentLevel)+1) && implies(!cw.PrettyPrint, cw.IndentLevel == old(cw.IndentLevel))
 //@   loop 1 before [syntax] traceSeq(evNode(ce.Function), evLC(ce.Token.LeadingComments), evMap(ce.Token.Start), evRune('('))
-//@   loop 1 each [syntax] traceSeq(evOpt(i > 0, evRune(',')), evNode(ce.Arguments[i]))
+//@   loop 1 each [syntax] traceSeq(evOpt(iter() > 0, evRune(',')), evNode(ce.Arguments[iter()]))
 //@   ensures [syntax] traceSeq(evRune(')'))
 
 //@ func (me *MemberExpression) WriteTo(cw)
@@ -527,7 +528,7 @@ func slotPrecedence(e Expression) int     { return 0 }
 //@   assumes [wf] fe.Body != nil && forall(0, len(fe.Parameters), func(k int) bool { return fe.Parameters[k] != nil })
 //@   loop 1 invariant [frame] cwInv(cw) && J(cw) && NoFusion(cw) && cw.IndentLevel == atEntry(cw.IndentLevel)
 //@   loop 1 before [syntax] traceSeq(evLC(fe.Token.LeadingComments), evMap(fe.Token.Start), evStr("function"), evOpt(fe.Name != nil, evRune(' ')), evOpt(fe.Name != nil, evChild(fe.Name)), evRune('('))
-//@   loop 1 each [syntax] traceSeq(evOpt(i > 0, evRune(',')), evChild(fe.Parameters[i]))
+//@   loop 1 each [syntax] traceSeq(evOpt(iter() > 0, evRune(',')), evChild(fe.Parameters[iter()]))
 //@   ensures [syntax] traceSeq(evRune(')'), evChild(fe.Body))
 
 //@ func (al *ArrayLiteral) WriteTo(cw)
@@ -536,7 +537,7 @@ func slotPrecedence(e Expression) int     { return 0 }
 //@   assumes [wf] forall(0, len(al.Elements), func(k int) bool { return !isNil(al.Elements[k]) })
 //@   loop 1 invariant [frame] cwInv(cw) && J(cw) && NoFusion(cw) && implies(cw.PrettyPrint, cw.IndentLevel == old(cw.IndentLevel)+1) && implies(!cw.PrettyPrint, cw.IndentLevel == old(cw.IndentLevel))
 //@   loop 1 before [syntax] traceSeq(evLC(al.Token.LeadingComments), evMap(al.Token.Start), evRune('['))
-//@   loop 1 each [syntax] traceSeq(evOpt(i > 0, evRune(',')), evNode(al.Elements[i]))
+//@   loop 1 each [syntax] traceSeq(evOpt(iter() > 0, evRune(',')), evNode(al.Elements[iter()]))
 //@   ensures [syntax] traceSeq(evLC(al.RBracket.LeadingComments), evRune(']'))
 
 //@ func (ol *ObjectLiteral) WriteTo(cw)
@@ -545,7 +546,7 @@ func slotPrecedence(e Expression) int     { return 0 }
 //@   assumes [wf] forall(0, len(ol.Properties), func(k int) bool { return !isNil(ol.Properties[k].Key) && !isNil(ol.Properties[k].Value) })
 //@   loop 1 invariant [frame] cwInv(cw) && J(cw) && NoFusion(cw) && implies(cw.PrettyPrint, cw.IndentLevel == old(cw.IndentLevel)+1) && implies(!cw.PrettyPrint, cw.IndentLevel == old(cw.IndentLevel))
 //@   loop 1 before [syntax] traceSeq(evLC(ol.Token.LeadingComments), evMap(ol.Token.Start), evRune('{'))
-//@   loop 1 each [syntax] traceSeq(evOpt(i > 0, evRune(',')), evNode(ol.Properties[i].Key), evRune(':'), evNode(ol.Properties[i].Value))
+//@   loop 1 each [syntax] traceSeq(evOpt(iter() > 0, evRune(',')), evNode(ol.Properties[iter()].Key), evRune(':'), evNode(ol.Properties[iter()].Value))
 //@   ensures [syntax] traceSeq(evLC(ol.RBrace.LeadingComments), evRune('}'))
 
 // ---- precedence of node kinds (C03) ----
